@@ -74,7 +74,7 @@ func runC14(p *chk.Prog, r *chk.Report) {
 	c14Families(p, r)
 	c14Validate(p, r, frrPkg)
 	c14Merge(p, r)
-	x := r.Rule("LOCK-GUARDED", "C locks (must-hold lockset dataflow)", "frr.sessionManager.{sessions,bfdProfiles,extraConfig} and frr.session.advertised are accessed only with the session manager's mutex held (createConfig/addSession/deleteSession through their callers)", 12)
+	x := r.Rule("LOCK-GUARDED", "C locks (must-hold lockset dataflow)", "frr.sessionManager.{sessions,bfdProfiles,extraConfig} and frr.session.advertised are accessed only with the session manager's mutex held (createConfig and the session (un)registration through their callers)", 12)
 	guardedRule(x, p, c19Table[:2])
 }
 
@@ -557,7 +557,18 @@ func c14Validate(p *chk.Prog, r *chk.Report, pkg string) {
 		ng := ns.Graph()
 		ok := false
 		for _, e := range ng.EdgesImplying(ng.GErrNil(false, strings.Replace(gen, "RECV.sessionManager", "RECV", 1))) {
-			ok = !ng.BranchAlways(e, ns.ContainsPat("RECV.deleteSession(S)")).Found
+			_ = e
+			// at every return: the generation succeeded, or the session was unregistered on the way
+			unreg := chk.GEvent(func(n ast.Node) bool {
+				es, isES := n.(*ast.ExprStmt)
+				return isES && ns.MatchNew("delete(RECV.sessions, K)", es.X) != nil
+			})
+			ok = true
+			for _, rt := range ng.Returns() {
+				if !ng.Dominated(rt, chk.GOr(ng.GErrNil(true, strings.Replace(gen, "RECV.sessionManager", "RECV", 1)), unreg)) {
+					ok = false
+				}
+			}
 		}
 		x.Check(pkg+":NewSession:unregister-on-generation-error", ns.Pos(), ok, "", "a session whose configuration could not be generated stays registered")
 	}
